@@ -16,6 +16,7 @@
 //	hdr <dir> <ops…>                        header lists + table size updates encoded by one side, decoded by the other
 //	hdrcut <ops…>                           header blocks decoded while the emit callback switches emitting off mid-block (hdrcut.go)
 //	frames <dir> <frames…>                  frame sequences (padding, priority, CONTINUATION) written by one framer, read by the other
+//	lim rf … / lim conn …                   limits: frame size / padding / fixed lengths / SETTINGS ranges / WINDOW_UPDATE overflow at their boundaries (c18r6_limits.go)
 package c18
 
 import (
@@ -49,6 +50,7 @@ func Run(c *hx.Ctx) {
 	runFrameSeqs(c)
 	runPeer(c)
 	runPeerNeg(c)
+	runLimits(c) // c18r6_limits.go
 }
 
 func scatter(z uint64) uint64 {
